@@ -141,6 +141,11 @@ type ConnSpec struct {
 	// ServerKeyUpdate (reference server, TLS 1.3): asked before the n-th echo write; send => the
 	// server sends a KeyUpdate first, request => with update_requested.
 	ServerKeyUpdate func(n int) (send, request bool)
+	// ServerHelloRequest (reference server, TLS <= 1.2): asked before the n-th echo write (n = -1:
+	// right after the server's handshake); true => the server sends a HelloRequest first, i.e. asks
+	// the client to renegotiate. (No Go server implements renegotiation: the client's new
+	// ClientHello is then refused, which ends the connection.)
+	ServerHelloRequest func(n int) bool
 	// ExtraHandshakers: that many further tasks call Handshake on the same UConn, each after a
 	// drawn number of scheduler steps once the client task is about to call Handshake itself
 	// (default client only). Their results go to ConnOutcome.ExtraErrs.
@@ -169,6 +174,7 @@ type ConnOutcome struct {
 	// HelloRawEnd is Hello.Raw once every task of the connection has finished (after any further
 	// Handshake callers, the echo and Close).
 	HelloRawEnd []byte
+	HelloRequests int
 	ExtraErrs   []error
 	ExtraRan    []bool
 	prepDone    bool
@@ -244,6 +250,11 @@ func defaultServer(o *ConnOutcome, conn net.Conn) {
 		if sp.AfterServerHS != nil {
 			sp.AfterServerHS(o)
 		}
+		if sp.ServerHelloRequest != nil && st.Version <= tls.VersionTLS12 && sp.ServerHelloRequest(-1) {
+			if sc.SendRawHandshake([]byte{0, 0, 0, 0}) == nil {
+				o.HelloRequests++
+			}
+		}
 	} else {
 		sc := tls.Server(conn, sp.SCfg)
 		o.UServer = sc
@@ -277,6 +288,11 @@ func defaultServer(o *ConnOutcome, conn net.Conn) {
 						break
 					}
 					o.KeyUpdates++
+				}
+			}
+			if sp.ServerHelloRequest != nil && o.RefConn != nil && o.S.Version <= tls.VersionTLS12 && sp.ServerHelloRequest(echoes) {
+				if o.RefConn.SendRawHandshake([]byte{0, 0, 0, 0}) == nil {
+					o.HelloRequests++
 				}
 			}
 			echoes++
